@@ -476,7 +476,7 @@ func genPartial() ([]*Log, map[string][]*Variant) {
 	for _, pol := range []string{"compact", "local"} {
 		for _, f := range fails {
 			for ni, nx := range nexts {
-				if ni > 1 && pol == "local" {
+				if ni > 1 && (pol == "local" || ni > 2) {
 					continue
 				}
 				n++
